@@ -175,7 +175,7 @@ class H5Writer:
             base = list(h5file)[0]
             base_handle = h5file[base]
 
-            if entity.name == base:
+            if getattr(entity, "workspace", None) is entity:
                 return base_handle
 
             uid = entity.uid
